@@ -67,7 +67,11 @@ def run(ctx):
         if vd != "ok":
             ctx.violation(f"{vd}: {json.dumps(m)}", {"meta": m, "verdict": vd, "other": c.get("other", c)},
                           key="socket-ignores-execmodel" if vd == "C16.socket-worker-ignores-the-requested-execmodel" else None)
+    from drivers import ssloop_part
+
+    ssl = ssloop_part.run(ctx)
     ctx.coverage.update({
+        "socketserver_loop": ssl,
         "states": r.distinct, "transitions": r.generated, "traces_validated_against_impl": len(cases),
         "evaluations": len(cases), "distinct_nontrivial": sum(1 for m in metas if m.get("transport") != "popen"),
         "rule": "the transcript program set (echo of every serialisable type and size, sub-channels, callback with endmarker, remote error, refused "
